@@ -203,7 +203,7 @@ def check(case, acc, tmp):
                     exp = m0.filter_idx(axis, mem)
                     if rem:
                         exp = exp.remove_empty('whole')
-                    d = diff(tab, exp)
+                    d = diff(tab, exp, by_id=True)       # also through the part's own id lookups
                     if d is not None:
                         clause = 'other-axis' if (other(axis) in d and 'ids' in d) else \
                             ('metadata' if 'metadata' in d else ('members' if ' ids' in d else 'values'))
